@@ -9,6 +9,16 @@ CHECKS = {
    ref="4 C12", note="trusts RealFn.class (Q(a,x) closed form), TLC, the Go harness; float results compared at 1e-12",
    tech="TLA+ spec (Decision/GenDecision) model-checked by TLC; TLC-generated vectors replayed into Go; Go traces validated by TLC (TraceDecision)"),
 }
+CHECKS.update({
+ "C07": dict(cat="model_checking",
+   text="GenVerdict.tla enumerates every Q-histogram class (all partitions of s into <=10 bins) and every pass count for the three workflow kinds and model-checks the decision rule (critical value, verdict, named item); every emitted matrix is realised through stub runners and driven through the real FactoryDetect/PowerOnDetect/PeriodDetect; TLC validates each execution trace (TraceWorkflow). Exhaustive over matrix classes on the model, one real execution per class.",
+   ref="4 C07", note="stub runners are installed through the exported registry randomness.TestMethodArr; trusts RealFn, TLC, the Go driver",
+   tech="TLA+ spec (Decision/GenVerdict) model-checked by TLC; TLC-generated result matrices replayed through stub runners into the real workflows; execution traces validated by TLC (TraceWorkflow)"),
+ "C08": dict(cat="model_checking",
+   text="WorkflowFast.tla models the worker protocol (one action per critical section) and is checked exhaustively for W<=4, S<=5 with all short-read choices (safety + liveness under weak fairness; as-is defect switches must violate). The real Fast workflows are bound by TLC-validated traces of free-running executions with injected delays for NumCPU in {1,2,3,16}, a sequential/parallel differential in stub and real-runner mode, and a -race build. Interleavings of the real code are sampled, not enumerated.",
+   ref="4 C08", note="schedules of the real code are sampled; taskset controls NumCPU; race detector trusted for race freedom on the executions run",
+   tech="TLA+ spec (WorkflowFast) model-checked by TLC incl. liveness; trace validation of free-running real executions (TraceWorkflow); sequential/parallel differential; go -race"),
+})
 PENDING = {}
 
 def main():
